@@ -180,6 +180,14 @@ impl Scenario for ReplyScenario {
                     delta_ms: 1,
                     since_last_tx: true,
                 }),
+                4 if rng.chance(1, 2) => {
+                    // the session ends where it stands - a cut, or a new connection replacing the running one - for instance
+                    // while an unsolicited response awaits its confirmation; numbering and correlation start over with the next
+                    if rng.bool() {
+                        script.push(Op::Disconnect { eof: rng.bool() });
+                    }
+                    script.push(Op::Connect);
+                }
                 _ => {}
             }
             if large && rng.chance(1, 3) {
@@ -710,6 +718,23 @@ impl Oracle for ReplyOracle {
                             step.op_index, b[0]
                         ),
                     ));
+                }
+                // across a session change numbers may be skipped (a response written into a dying connection is never seen), but
+                // the series of the old session is over: whatever comes first on the new one is a new response and does not
+                // take the number of the last one seen
+                let prev_session_seq = if self.resync_unsol { self.last_unsol.as_ref().map(|p| p[0] & 0x0F) } else { None };
+                if let Some(prev_seq) = prev_session_seq {
+                    self.bump("probe.first_unsolicited_after_session_change");
+                    if ctrl.seq == prev_seq {
+                        return Some(Violation::new(
+                            "C12/unsolicited-sequence",
+                            "reused-across-session-change",
+                            format!(
+                                "step {}: the first unsolicited response of the new session carries sequence {} like the last one of the previous session",
+                                step.op_index, ctrl.seq
+                            ),
+                        ));
+                    }
                 }
                 if let (Some(prev), false) = (&self.last_unsol, self.resync_unsol) {
                     let prev_seq = prev[0] & 0x0F;
